@@ -84,6 +84,7 @@ class LoopSpec:
             if is_for:
                 lc.k = lc.k + 1
             lc.phase = "keep"
+            ctx.cover()         # vacuity guard: an arbitrary iteration is executable
             ctx.prove("inv-keep@%s" % self.name, self.invariant(lc),
                       detail="loop invariant not re-established by an arbitrary iteration")
             if not is_for and self.variant:
